@@ -35,6 +35,10 @@ pub enum BOp {
     Expr(crate::exprgen::Ex),
     Plan(crate::exprgen::Pl),
     CnfAssign(Vec<Vec<(u8, bool)>>, Vec<Option<bool>>),
+    /// the function with this truth table over the current variables, built by Shannon expansion with ite: diagrams
+    /// of several dozen nodes (a random function of 8 variables has about 70), on which the later operations of the
+    /// history then work
+    Dense([u64; 4]),
 }
 
 impl BOp {
@@ -56,6 +60,7 @@ impl BOp {
             BOp::OrLst(..) => "or_lst",
             BOp::NewVar(..) => "new_var",
             BOp::Cnf(..) => "compile_cnf",
+            BOp::Dense(..) => "dense",
             BOp::Expr(..) => "compile_logical_expr",
             BOp::Plan(..) => "compile_plan",
             BOp::CnfAssign(..) => "compile_cnf_with_assignments",
@@ -173,6 +178,7 @@ pub fn bop_strategy() -> impl Strategy<Value = BOp> {
             proptest::collection::vec(proptest::option::weighted(0.3, any::<bool>()), NV),
         )
             .prop_map(|(c, m)| BOp::CnfAssign(c, m)),
+        1 => any::<[u64; 4]>().prop_map(BOp::Dense),
     ]
 }
 
@@ -192,8 +198,28 @@ pub fn cfg_strategy(max_n0: u8) -> impl Strategy<Value = BddCfg> {
         })
 }
 
+/// histories; three in ten start from one or two dense random functions (several dozen nodes each), so that the
+/// operations that follow work on diagrams of some size, not only on the few-node diagrams that random apply
+/// sequences over literals reach
 pub fn ops_strategy(max_len: usize) -> impl Strategy<Value = Vec<BOp>> {
-    proptest::collection::vec(bop_strategy(), 0..=max_len)
+    (
+        proptest::collection::vec(bop_strategy(), 0..=max_len),
+        prop_oneof![7 => Just(0u8), 2 => Just(1u8), 1 => Just(2u8)],
+        any::<[u64; 4]>(),
+        any::<[u64; 4]>(),
+        any::<u16>(),
+    )
+        .prop_map(move |(mut ops, dense, b1, b2, at)| {
+            if dense >= 1 {
+                ops.insert(0, BOp::Dense(b1));
+            }
+            if dense >= 2 {
+                let p = 1 + pick(at, ops.len());
+                ops.insert(p.min(ops.len()), BOp::Dense(b2));
+            }
+            ops.truncate(max_len.max(1));
+            ops
+        })
 }
 
 /// information about one applied operation
@@ -309,6 +335,14 @@ impl<'a, T: IteTable<'a, BddPtr<'a>> + Default> BddRun<'a, T> {
                     }
                 }
                 (b.compile_cnf_with_assignments(&cnf, &self.partial_model(&mv, m)), t, vec![])
+            }
+            BOp::Dense(bits) => {
+                let mut t = Tt(*bits);
+                for v in self.n..crate::tt::NV {
+                    t = t.cofactor(v, false);
+                }
+                let labels: Vec<usize> = self.labels[..self.n].to_vec();
+                (crate::semi::bdd_from_tt_labels(b, t, &labels), t, vec![])
             }
             BOp::Cnf(cl) => {
                 let mapped: Vec<Vec<(usize, bool)>> = cl.iter().map(|c| c.iter().map(|(v, p)| (self.v(*v), *p)).collect()).collect();
